@@ -5,4 +5,6 @@ MCPerms  == {0, 420, 512, 2048, 4095}
 MCJunk   == {{}, {31, 27, 26}, {9, 10, 11}}
 MCExt    == {[lo |-> 0, hi |-> FALSE], [lo |-> 1048575, hi |-> TRUE]}
 MCTimes  == {ZeroTime, [neg |-> TRUE, mag |-> <<1, 0, 0, 0>>, ns |-> 999999999]}
+\* whatever the entry point (constructor, setters, directory / importer path), the same metadata is read back
+ASSUME EntryAgnostic
 =============================================================================
